@@ -643,6 +643,11 @@ def targets(name):
         if p[1] == "short-dataset":
             return {p[2] + "/metadata"}
         return {p[2]}
+    if name in ("matrix_type:unknown", "element-type:unknown"):
+        # only the label changes; what `data` holds is still there to be
+        # judged (an accepted file must load, whatever the label says)
+        return {"matrix_type" if head == "matrix_type"
+                else "matrix_element_type"}
     if head == "element-type":
         return {"matrix_element_type", "data"}
     if head == "matrix_type":
@@ -830,10 +835,20 @@ def check(case, rec):
         # two mutations of the same class or touching the same member can
         # cancel each other (shape-1 + drop one ID), so only independent
         # pairs carry a verdict
-        if m1[0] != m2[0] and m1[1] != m2[1] and \
-                not (targets(m1[0]) & targets(m2[0])):
-            judged([m1, m2], m1[0] + " + " + m2[0])
-            rec.cls("double-mutants")
+        pairs = [(m1, m2)]
+        # ... and pairs of a mutation that must be rejected with one that
+        # need not be (the second must not mask the first)
+        others = [m_ for m_ in muts if m_[1] not in MUST_REJECT]
+        rejects = [m_ for m_ in muts if m_[1] in MUST_REJECT]
+        if others and rejects:
+            pairs += [(others[(a + 7 * k_) % len(others)],
+                       rejects[(b + 13 * k_) % len(rejects)])
+                      for k_ in range(6)]
+        for m1, m2 in pairs:
+            if m1[0] != m2[0] and m1[1] != m2[1] and \
+                    not (targets(m1[0]) & targets(m2[0])):
+                judged([m1, m2], m1[0] + " + " + m2[0])
+                rec.cls("double-mutants")
     rec.nt(has_nz and len(applied) > 20)
 
 
